@@ -54,11 +54,12 @@ Definition rcz (c : Z) (j : nat) : Z := c - vz v j.
 
 Record DistInv : Prop := mkDist
   { h1 : forall j, In j ready -> dz d j <= mu;
-    h2 : forall j, (j < n)%nat -> ~ In j ready -> mu <= dz d j;
-    h3 : forall j c, In (j, Fin c) (row rows r) -> dz d j <= rcz c j;
+    (* d may still be +inf on columns never reached (reference variant with a true infinity): the facts speak about finite d *)
+    h2 : forall j, (j < n)%nat -> ~ In j ready -> (exists z, gete d j = Fin z) -> mu <= dz d j;
+    h3 : forall j c, In (j, Fin c) (row rows r) -> (exists z, gete d j = Fin z) /\ dz d j <= rcz c j;
     (* a row popped last may be only partially scanned when the loop exits from inside its scan; then d[jh] = umin *)
     h4 : forall jh j c ch, In jh ready -> In (j, Fin c) (row rows (getn y jh n)) -> In (jh, Fin ch) (row rows (getn y jh n)) ->
-           dz d jh = mu \/ dz d j <= dz d jh + rcz c j - rcz ch jh;
+           dz d jh = mu \/ ((exists z, gete d j = Fin z) /\ dz d j <= dz d jh + rcz c j - rcz ch jh);
     h5 : forall j, In j ready \/ j = j1 ->
            (getn pred j n = r /\ exists c, In (j, Fin c) (row rows r) /\ dz d j = rcz c j) \/
            (exists jh c ch, In jh ready /\ getn pred j n = getn y jh n /\
@@ -109,14 +110,14 @@ Proof.
       destruct (SL jh _ Hjhn eq_refl Ny) as [_ [_ [c0 [Hc0 Hmin]]]].
       assert (c0 = ch) by (assert (Fin c0 = Fin ch) by (eapply row_cost_unique; eauto); congruence). subst c0.
       specialize (Hmin j' c' Hc'). pose proof (Up j' c'). unfold rcz in *. lia.
-    - destruct (in_dec Nat.eq_dec j' ready) as [Hin|Hnin].
+    - destruct H4' as [Fd' H4'']. destruct (in_dec Nat.eq_dec j' ready) as [Hin|Hnin].
       + rewrite (proj1 (RC j' c') Hin). lia.
-      + rewrite (proj2 (RC j' c') Hnin). specialize (H2 j' Hj' Hnin). lia. }
+      + rewrite (proj2 (RC j' c') Hnin). specialize (H2 j' Hj' Hnin Fd'). lia. }
   assert (Root : forall j' c', In (j', Fin c') (row rows r) -> mu <= c' - vz v' j').
-  { intros j' c' Hc'. destruct (Rfin _ _ _ Hc') as [Hj' _]. specialize (H3 j' c' Hc').
+  { intros j' c' Hc'. destruct (Rfin _ _ _ Hc') as [Hj' _]. destruct (H3 j' c' Hc') as [Fd' H3'].
     destruct (in_dec Nat.eq_dec j' ready) as [Hin|Hnin].
     - rewrite (proj1 (RC j' c') Hin). lia.
-    - rewrite (proj2 (RC j' c') Hnin). specialize (H2 j' Hj' Hnin). lia. }
+    - rewrite (proj2 (RC j' c') Hnin). specialize (H2 j' Hj' Hnin Fd'). lia. }
   intros j i Hj Ey Ne. destruct (PI' j i Hj ltac:(discriminate) Ey Ne) as [Hi Hx']. split; auto. split; auto.
   destruct (Src j i Hj Ey Ne) as [Old|[Pr Where]].
   - (* an old pair *)
